@@ -1271,6 +1271,13 @@ def nlri_fixed_cases() -> list:
         {'kind': 'nlri', 'afi': 25, 'safi': 65, 'hex': '00120001c0a8c901007b000500010008029c4100', 'addpath': False, 'action': 'announce', 'source': 'pinned:vpls-longer-than-17', 'encoder': False},
         {'kind': 'nlri', 'afi': 16388, 'safi': 72, 'hex': '0103002f0000fde8000000010100000000000000040100001a020000040000fc13020100040000008b02030006192168251231', 'addpath': False, 'action': 'announce', 'source': 'pinned:bgp-ls-vpn-unknown-type', 'encoder': False},
     ]
+    for fam, raw, variant in (
+        ((25, 70), '0119000200000000000000000000000000000000000000000039d1', {'kind': 'byte', 'pos': 14, 'xor': 16}),  # EVPN type 1, one ESI bit
+        ((25, 70), '0423000100004ec400ff00000000000000000000800000000000000000000000000000003c', {'kind': 'byte', 'pos': 12, 'xor': 4}),  # EVPN type 4, one ESI bit
+        ((1, 85), '010004100000006400000064370a000001003039', {'kind': 'byte', 'pos': 12, 'xor': 4}),  # MUP type 2 session transformed, endpoint length
+        ((16388, 71), '020300300200000000000002bc0100001a0200000400003e34020100040000000002030006010135000041010900051e0a860258', {'kind': 'family', 'fam': [16388, 72]}),
+    ):
+        cases.append({'kind': 'nlri', 'afi': fam[0], 'safi': fam[1], 'hex': raw, 'addpath': False, 'action': 'announce', 'source': 'pinned:pair', 'encoder': False, 'variants': [variant]})
     # families the vectors on disk do not reach: one hand-written NLRI each, so that no registered family depends on the random part
     for fam, raw in (((1, 2), '18e00001'), ((2, 2), '20ff0e0000'), ((2, 4), '3800064120010db8'), ((1, 132), '600000fde80002fde800000001'), ((1, 132), '00')):
         cases.append({'kind': 'nlri', 'afi': fam[0], 'safi': fam[1], 'hex': raw, 'addpath': False, 'action': 'announce', 'source': 'pinned:hand-written', 'encoder': False, 'variants': standard_variants(fam)})
